@@ -709,7 +709,7 @@ def run(ctx):
     names = names_q + VARIANTS + (["c_cert"] if thorough else [])
     order = list(names)
     rnd.shuffle(order)
-    depth = 6 if thorough else 4
+    depth = 5 if thorough else 4      # 40 events: depth 6 no longer fits the 20 min budget on a loaded machine
     r = X.parallel_bfs(_mk_hist, (order,), depth, split_depth=1, xcheck_every=53)
     for rec, hist in r.violations:
         ctx.violation(rec, replay=dict(part="history", history=hist))
